@@ -109,7 +109,8 @@ func vfAttrValue(kind string) interface{} {
 	case "s1":
 		return "x"
 	case "s40":
-		return "0123456789abcdefghijABCDEFGHIJ0123456789"
+		// 40 bytes, 35 characters: multi-byte UTF-8 so that byte and character counts differ
+		return "0123456789abcdefghijABCDEFGHIJé温°xyz"
 	case "s120":
 		return strings.Repeat("L", 120)
 	case "s200":
